@@ -38,7 +38,8 @@ func (b *exampleBuilder) Build(node ischema.Node) ([]byte, error) {
 		return b.buildExampleForArrayNode(typedNode)
 
 	case *ischema.LiteralNode:
-		return typedNode.BasisLexEventOfSchemaForNode().Value().Data(), nil
+		// a copy: the lexeme's bytes are the schema text itself
+		return append([]byte(nil), typedNode.BasisLexEventOfSchemaForNode().Value().Data()...), nil
 
 	case *ischema.MixedValueNode:
 		return b.buildExampleForMixedValueNode(typedNode)
@@ -174,7 +175,7 @@ func (b *exampleBuilder) buildExampleForMixedValueNode(node *ischema.MixedValueN
 	}
 
 	if !bytes.NewBytes(tt[0]).IsUserTypeName() {
-		return node.Value().Data(), nil
+		return append([]byte(nil), node.Value().Data()...), nil
 	}
 
 	// The first alternative of `@a | @b` that has an example is used. Normally that
